@@ -79,6 +79,7 @@ TYPES = [
 ENC = {
     'enc-ber': lambda o: ber_enc.encode(o),
     'enc-ber-indef': lambda o: ber_enc.encode(o, defMode=False),
+    'enc-ber-chunk1': lambda o: ber_enc.encode(o, defMode=False, maxChunkSize=1),
     'enc-cer': lambda o: cer_enc.encode(o),
     'enc-der': lambda o: der_enc.encode(o),
     'enc-native': lambda o: repr(nat_enc.encode(o)),
@@ -286,6 +287,7 @@ class OpenScenario(Scenario):
         self.bytes = {'dec-ber': F.encode('indef' if form == 'indef' else 'der', self.T, self.v), 'dec-cer': None,
                       'dec-der': M.der(self.T, {'id': govval, 'blob': M.der(innerT, innerv)})}
         self.calls = ['dec-ber', 'dec-der', 'enc-der', 'enc-ber-indef', 'mutate-last', 'read-print']
+        self.caller_map = None
         self._solo = {}
 
     def fresh(self):
@@ -297,6 +299,9 @@ class OpenScenario(Scenario):
         val = spec.clone()
         val['id'] = self.v['id']
         val['blob'] = B.build(self.innerT, self.innerv, B.to_spec(self.innerT, cache=False))
+        # a caller-supplied (partial) map, reused by the caller for every call of the history
+        self.caller_map = {2: univ.OctetString(), 7: univ.Null()}
+        self.caller_map_keys = sorted(self.caller_map)
         return spec, val
 
     def norm(self, out, spec):
@@ -309,7 +314,8 @@ class OpenScenario(Scenario):
 
     def do(self, call, spec, val, results):
         if call in DEC:
-            out = outcome(lambda: DEC[call](self.bytes[call], asn1Spec=spec, decodeOpenTypes=True))
+            out = outcome(lambda: DEC[call](self.bytes[call], asn1Spec=spec, decodeOpenTypes=True,
+                                            openTypes=self.caller_map))
             return out, (out[1][0] if out[0] == 'ok' else None)
         return Scenario.do(self, call, spec, val, results)
 
@@ -380,6 +386,10 @@ def run_history(sc, seq, R, idx, seen_states, debug=False):
             if got != want:
                 R.violation('history.outcome', rec, 'after %s: %s -> %s' % (list(seq[:step]), call, summarize(got)),
                             'as when run alone: %s' % summarize(want), 'codec', feats, idx)
+        if getattr(sc, 'caller_map', None) is not None and sorted(sc.caller_map) != sc.caller_map_keys:
+            R.violation('config.changed', rec, 'the caller\'s openTypes map was modified by %s: keys %r' % (call, sorted(sc.caller_map)),
+                        'keys %r' % (sc.caller_map_keys,), 'decoder', feats, idx)
+            sc.caller_map_keys = sorted(sc.caller_map)
         # shared schema untouched (raw shape; _tagMap memo excluded by shape())
         sh = schema_shape(spec)
         if sh != spec_shape0:
